@@ -276,7 +276,14 @@ def main():
         print('MACHINERY: views %s could not be brought under contract on this tree (%s); %s is undecided here (bounded search over %s cases found no failing input)' % (
             missing or missing_props, '; '.join('%s: %s' % kv for kv in rep.get('broken', {}).items())[:400], pid, pr.get('checked'))); sys.exit(2)
     mods = ['views::' + m for m in vlist]
-    pmods = ['props::' + p for p in want_props]
+    # property lemma modules of this property plus, transitively, the lemma modules they import (so the proof is self-contained)
+    closure, todo = [], list(want_props)
+    while todo:
+        m = todo.pop()
+        if m in closure or m in rep.get('props_skipped', []): continue
+        closure.append(m)
+        todo += re.findall(r'use crate::props::(\w+)::', open(os.path.join(VF, 'props', m + '.rs')).read())
+    pmods = ['props::' + p for p in sorted(closure)] + (['lem', 'alg'] if closure else [])
     if pid == 'C18' and rep.get('unbounded_buffers'):
         print('MACHINERY: buffer fields without a declared C18 bound: %s (needs contract work, not a verdict)' % rep['unbounded_buffers']); sys.exit(2)
     # ---- canaries: the trusted base must not prove false
